@@ -29,6 +29,24 @@ CHECKS["C04"] = dict(
     note="UUIDv4 freshness of auto identities is assumed (Section-free: the fresh key is a parameter of register). Monitor-channel delivery of AcceptFailed is exercised under C20.",
     design="4 C04")
 
+SOCK_NOTE = "Trusted: kernel, translator, extraction, driver, harness. The World model (coq/Model/World.v) is hand-written from src/{backend,req,rep,dealer,router,push,pull,pub,sub,xpub,fair_queue}.rs and tied to the code by running identical scenarios (seeded generator + targeted grids) on the real sockets over scripted in-memory connections and on the extracted model, comparing every API result and every byte written per connection; scc::HashMap, SegQueue, Mutex, FramedWrite are modelled (map / FIFO / atomic sections / append). Distinct peer identities are assumed by the model."
+CHECKS["C07"] = dict(
+    technique="Coq proof (algebraic laws of the envelope functions over all frame lists) + differential correspondence of real REQ/REP sockets against the extracted model + property oracle on wire bytes",
+    text="Theorems in coq/Properties/C07.v: REQ adds exactly one empty delimiter and strips exactly that; REP splits at the FIRST empty frame for every routing prefix and payload (empty frames inside the payload included), its reply retraces the envelope, a request with nothing after the delimiter is refused, never zero frames; end-to-end law through identity-adding hops. The real sockets are driven over the payload x prefix grid and compared with the model and with an oracle that recomputes the expected wire bytes from the property text.",
+    note=SOCK_NOTE, design="4 C07")
+CHECKS["C08"] = dict(
+    technique="Coq proof (decision rules and alternation lemmas on the World step function) + exhaustive {send,recv} sequences to length 6 on real REQ and REP against a two-state reference machine and the extracted model",
+    text="Theorems in coq/Properties/C08.v: out-of-turn send/recv on REQ and reply-without-request on REP fail, hand the message back and leave the state and every wire unchanged; successful REQ sends and completed recvs alternate; the reply is read from the requestee's connection only; REP writes envelope++reply to exactly the requester's connection. Exhaustive call sequences (peer answers / silent / closed; 1-2 clients) and seeded lock-step client interleavings run on the real sockets.",
+    note=SOCK_NOTE, design="4 C08")
+CHECKS["C09"] = dict(
+    technique="Coq proof (labelling and exact-routing lemmas with frame conditions on all other connections) + seeded scenarios on a real ROUTER with per-connection ground truth, compared with the extracted model",
+    text="Theorems in coq/Properties/C09.v: what the fair queue yields from connection k is returned prefixed with k's registered identity and otherwise unmodified; a send is written, minus its first frame, to exactly the addressed registered peer with every other wire and the peer table unchanged; unknown, empty or over-long identities fail and write nothing. Real ROUTER with 1-4 peers, announced/auto identities, segmented arrivals, departed peers.",
+    note=SOCK_NOTE, design="4 C09")
+CHECKS["C10"] = dict(
+    technique="Coq proof (rotation lemma by induction over sends, frame conditions) + exhaustive join-time grids and seeded back-pressure scenarios on real PUSH/DEALER/REQ with wire snapshots at send return",
+    text="Theorems in coq/Properties/C10.v: a successful round-robin send writes the whole message to the head of the rotation only and moves it to the tail; with a duplicate-free rotation of live peers n consecutive sends reach the n members in order (strict rotation) and restore the queue; a late joiner enters at the tail; no live peer => ReturnToSender with the message and nothing written. Real sockets: every join order/time for <=3 peers x 6 sends, writers accepting k bytes per call or answering Pending first. Known finding rr-duplicate-id-after-rejoin is reported as such.",
+    note=SOCK_NOTE, design="4 C10")
+
 NOT_YET = {
 }
 
